@@ -195,12 +195,13 @@ def enc_obs(o): return sum(x << k for x, k in zip(o, (0, 1, 2, 3, 4, 5, 6)))
 
 def model_compare(ctx, tag, runs):
     """hand model (Model/Uart.v) against the real link, cycle by cycle, inside Coq; and the model's accepted/delivered lists."""
-    items = []
+    items, defs = [], []
     for k, (scen, res) in enumerate(runs):
-        ins = common.zlist([enc_in(i) for i in res['ins']]); exp = common.zlist([enc_obs(o) for o in res['obs']])
-        items.append(('c%d' % k, 'link_cmp %d %s %s' % (res['n'], ins, exp)))
-        items.append(('io%d' % k, 'link_io %d %s' % (res['n'], ins)))
-    out = common.coq_eval(tag, PRELUDE, items, timeout=900)
+        defs.append('Definition ins%d : list Z := %s.' % (k, common.zlist([enc_in(i) for i in res['ins']])))
+        defs.append('Definition exp%d : list Z := %s.' % (k, common.zlist([enc_obs(o) for o in res['obs']])))
+        items.append(('c%d' % k, 'link_cmp %d ins%d exp%d' % (res['n'], k, k)))
+        items.append(('io%d' % k, 'link_io %d ins%d' % (res['n'], k)))
+    out = common.coq_eval(tag, PRELUDE + '\n'.join(defs) + '\n', items, timeout=900)
     for k, (scen, res) in enumerate(runs):
         d = out['c%d' % k]
         if d is not None:
@@ -363,7 +364,7 @@ def scenarios(ctx, rng, ratios, n_bytes_each, gap_kinds, full_bytes_ratio=None):
     return out
 
 
-def sweep(ctx, scens, tag, ties, with_model=True, chunk=12):
+def sweep(ctx, scens, tag, ties, with_model=True, chunk=40):
     """run the real link on every scenario; oracle per run (False = a spec violation with its input was reported);
     then the hand model in Coq on the same inputs (in chunks); a model mismatch is appended to `ties`."""
     done = []
